@@ -96,7 +96,7 @@ def run(ctx):
     consts[fixed] = dict(states=res[fixed]["states"], transitions=res[fixed]["transitions"], holds="all formulas, FixBump = TRUE")
     ctx.rng.shuffle(scs)   # the real-call-index sweep takes the first scenarios of every shard
     chosen = regression() + scs
-    s, nlines = drive_and_judge(ctx, chosen, sweep=2 if quick else 12, variants="rotate" if quick else "all",
+    s, nlines = drive_and_judge(ctx, chosen, sweep=2 if quick else 12, variants="all",
                                 shards=6 if quick else 14, allprobes=not quick)
     ctx.cov.update(dict(
         states=states, transitions=trans, traces_validated_against_impl=s["runs"], samples=s["samples"][:2], model_runs=consts,
